@@ -3,14 +3,17 @@
 package app
 
 import (
+	"context"
 	"encoding/json"
 	"fmt"
 	"sort"
+	"strings"
 	"sync"
 	"testing"
 	"time"
 
 	"github.com/thushan/olla/internal/config"
+	"github.com/thushan/olla/internal/core/domain"
 	"github.com/thushan/olla/internal/zzverif"
 )
 
@@ -25,6 +28,62 @@ type verifRoutingScn struct {
 	D        []string `json:"D"`
 	Relist   string   `json:"relist"`
 	Chunked  bool     `json:"chunked"`
+	Spelling string   `json:"spelling"`
+}
+
+// verifRoutingAsk: the name the request uses for the model the endpoints in L list as `listed`.
+func verifRoutingAsk(stk *verifStack, spelling, listed string) string {
+	switch spelling {
+	case "case":
+		return strings.ToUpper(listed)
+	case "tag":
+		return listed + ":latest"
+	case "uid", "alias":
+		// what olla's own unified catalogue publishes for the model
+		d, err := stk.mgr.GetRegistry().GetDiscovery()
+		if err != nil {
+			return listed
+		}
+		reg, err := d.GetRegistry()
+		if err != nil {
+			return listed
+		}
+		ur, ok := reg.(interface {
+			GetUnifiedModels(ctx context.Context) ([]*domain.UnifiedModel, error)
+		})
+		if !ok {
+			return listed
+		}
+		ums, _ := ur.GetUnifiedModels(context.Background())
+		for _, um := range ums {
+			mine := false
+			for _, a := range um.Aliases {
+				if a.Name == listed {
+					mine = true
+				}
+			}
+			if !mine {
+				continue
+			}
+			if spelling == "uid" {
+				return um.ID
+			}
+			for _, a := range um.Aliases {
+				if a.Name != listed && a.Name != um.ID {
+					return a.Name
+				}
+			}
+			return um.ID
+		}
+	}
+	return listed
+}
+
+func verifOr(s, dflt string) string {
+	if s == "" {
+		return dflt
+	}
+	return s
 }
 
 func verifHas(xs []string, x string) bool {
@@ -50,11 +109,25 @@ func TestVerif_Routing(t *testing.T) {
 		b := tr.Block()
 		defer b.Flush()
 		names := []string{"e1", "e2", "e3"}
+		listed := "m1"
+		catalogued := sc.Spelling == "uid" || sc.Spelling == "alias"
+		if catalogued {
+			// a name the unifier has something to say about: the ollama endpoints list it in mixed case, the
+			// lm-studio ones in lower case -- one model in olla's catalogue, with a unified id and two aliases
+			listed = "Qwen2.5-Coder:7B-Instruct-q4_K_M"
+		}
 		opts := make([]verifEndpointOpt, len(names))
 		for i, n := range names {
 			opts[i].Models = []string{"m2"}
 			if verifHas(sc.L, n) || verifHas(sc.D, n) {
-				opts[i].Models = []string{"m1", "m2"}
+				opts[i].Models = []string{listed, "m2"}
+				if catalogued {
+					opts[i].Type = "ollama"
+					if i%2 == 1 {
+						opts[i].Type = "lm-studio"
+						opts[i].Models = []string{strings.ToLower(listed[:len(listed)-6]) + listed[len(listed)-6:], "m2"}
+					}
+				}
 			}
 		}
 		stk, err := verifBoot("sherpa", "round-robin", "auto", opts, func(c *config.Config) {
@@ -67,7 +140,7 @@ func TestVerif_Routing(t *testing.T) {
 		})
 		if err != nil {
 			b.Emit("Reset", "scn", sn, "booted", false, "err", err.Error(), "strategy", sc.Strategy, "fallback", sc.Fallback,
-				"refresh", sc.Refresh, "H", []string{}, "L", []string{})
+				"refresh", sc.Refresh, "H", []string{}, "L", []string{}, "unifier", sc.Unifier, "route", sc.Route, "D", []string{}, "spelling", "exact")
 			return
 		}
 		defer stk.Close()
@@ -139,9 +212,10 @@ func TestVerif_Routing(t *testing.T) {
 		}
 		sort.Strings(hObs)
 		emit("Reset", "scn", sn, "booted", true, "strategy", sc.Strategy, "fallback", sc.Fallback, "refresh", sc.Refresh,
-			"H", hObs, "L", sc.L, "unifier", sc.Unifier, "route", sc.Route, "D", sc.D, "chunked", sc.Chunked)
-		target, hdrs, body := verifRequestFor(sc.Route, fmt.Sprintf("q%d", sn), "m1")
-		emit("ClientSend", "route", sc.Route)
+			"H", hObs, "L", sc.L, "unifier", sc.Unifier, "route", sc.Route, "D", sc.D, "chunked", sc.Chunked, "spelling", verifOr(sc.Spelling, "exact"))
+		asked := verifRoutingAsk(stk, sc.Spelling, listed)
+		target, hdrs, body := verifRequestFor(sc.Route, fmt.Sprintf("q%d", sn), asked)
+		emit("ClientSend", "route", sc.Route, "listed", listed, "asked", asked)
 		res := zzverif.Do(stk.addr, &zzverif.Req{Method: "POST", Target: target, Headers: hdrs, Body: []byte(body), Chunked: sc.Chunked, ChunkSz: 13, Timeout: 20 * time.Second})
 		stc := res.Status
 		if res.NoResp {
